@@ -14,6 +14,7 @@
 -/
 import OPModel.Proofs.PocketCurve
 import OPModel.Proofs.Profiles
+import OPModel.Proofs.RunMin
 import OPModel.Drive.C07
 
 namespace OP.C07
@@ -101,5 +102,36 @@ example :
       (fun out => out.map fun r => (r.get 0, r.get 3))
     = some [(some 300, some 500), (some 250, some 500), (some 200, some 500), (some (2150/11), some 500),
             (some 150, some 0), (some 100, some 100)] := by decide +kernel
+
+
+/-! ### the specification layer: running minima are the greatest monotone curves under the GCC -/
+
+/-- **The running minimum of a column is non-increasing, lies under the column, and starts where the
+    column starts.** -/
+theorem runMin_under_and_monotone (h : Rat) (t : List Rat) :
+    (runMin (h :: t)).head? = some h ∧ List.Forall₂ (· ≤ ·) (runMin (h :: t)) (h :: t) ∧
+    (runMin (h :: t)).Pairwise (· ≥ ·) := by
+  obtain ⟨h1, h2, h3⟩ := runMinFrom_spec h t
+  simp only [runMin]
+  exact ⟨rfl, List.Forall₂.cons (le_refl h) h1, List.Pairwise.cons (fun x hx => h2 x hx) h3⟩
+
+/-- **… and it is the greatest such column**: every non-increasing column that lies under the GCC
+    row by row lies under the running minimum.  (`npSpec` is built from these running minima read
+    towards the pinch; the driver checks on every tolerance-clean case that the code-shaped
+    `gccWithoutPockets` returns exactly `npSpec` of its own rows.) -/
+theorem runMin_greatest (l g : List Rat) (hg : List.Forall₂ (· ≤ ·) g l) (hmono : g.Pairwise (· ≥ ·)) :
+    List.Forall₂ (· ≤ ·) g (runMin l) := by
+  cases hg with
+  | nil => simp [runMin]
+  | cons hah hrest =>
+    rename_i a h g' t
+    simp only [runMin]
+    refine List.Forall₂.cons hah (runMinFrom_greatest h t g' hrest (List.pairwise_cons.mp hmono).2 ?_)
+    intro x hx
+    exact le_trans ((List.pairwise_cons.mp hmono).1 x hx) hah
+
+/-- the specification on a curve with a pocket on each side of the pinch -/
+example : npSpec (1 / 1000000) [400, 600, 200, 400, 100, 0, 300, 100, 500] = [400, 400, 200, 200, 100, 0, 100, 100, 500] := by
+  decide +kernel
 
 end OP.C07
